@@ -317,5 +317,69 @@ pub fn run(ctx: &mut Ctx) {
                 // removed by the engine together with the out dir
             }
         }
+        // ---- manifests listing many packs (checked manifest data beyond the 8 KiB and 64 KiB buffer
+        // sizes of the readers involved): pristine verdicts of every pack, file and of the container
+        let many: Vec<(Mode, u16)> = if ctx.quick() {
+            vec![(Mode::ALL[(ctx.seed % 3) as usize], 27 + (ctx.seed % 7) as u16), (Mode::ALL[((ctx.seed + 1) % 3) as usize], 33 + (ctx.seed % 11) as u16)]
+        } else {
+            let mut v = vec![];
+            for (mi, m) in Mode::ALL.iter().enumerate() {
+                for e in [26u16, 27, 28, 29, 30, 31, 32, 33, 34, 60, 255] {
+                    if e < 200 || (mi + round) % 3 == 0 {
+                        v.push((*m, e + round as u16));
+                    }
+                }
+            }
+            v
+        };
+        for (mode, extra) in many {
+            let my = case;
+            case += 1;
+            if !ctx.wants(my) {
+                continue;
+            }
+            let mut crng = rng.fork(my);
+            let mut spec = container::random_spec(&mut crng, mode, Comp::None, 4, extra);
+            spec.id_gap = 0;
+            for it in spec.items.iter_mut() {
+                it.data.truncate(64);
+            }
+            let dir = ctx.work.join(format!("c04-{}", my));
+            std::fs::create_dir_all(&dir).unwrap();
+            let entry = match util::guarded(|| container::build(&dir, "c", &spec)) {
+                Ok(Ok(p)) => p,
+                other => {
+                    ctx.fail(my, "create", &format!("creation of a container with {} extra packs failed: {:?}", extra, other));
+                    continue;
+                }
+            };
+            let cc = container_check(&entry);
+            if cc != "true" {
+                ctx.fail(my, "pristine-container", &format!("Container::check on a freshly created {} container listing {} packs = {}", mode.name(), extra + 3, cc));
+            }
+            let mut files: Vec<std::path::PathBuf> = std::fs::read_dir(&dir).unwrap().filter_map(|e| e.ok().map(|e| e.path())).filter(|p| p.is_file()).collect();
+            files.sort();
+            let mut npacks = 0u64;
+            for file in &files {
+                let orig = std::fs::read(file).unwrap();
+                let fc = file_check(file);
+                if fc != "true" {
+                    ctx.fail(my, "pristine-file", &format!("ContainerPack::check of {} = {} ({} packs listed)", file.file_name().unwrap().to_string_lossy(), fc, extra + 3));
+                }
+                for p in &container::packs_in_file(&orig) {
+                    let pv = pack_check(p.kind, orig[p.origin..p.origin + p.size].to_vec());
+                    if pv != "true" {
+                        ctx.fail(my, "pristine-pack", &format!("freshly created pack kind {} does not verify: {} ({} packs listed in the manifest)", p.kind as char, pv, extra + 3));
+                    }
+                    if p.kind == b'm' {
+                        ctx.emit(my, &format!("pk.check {} {} {} {} -", file.display(), p.origin, p.size, p.kind as char), coarse(&pv));
+                        ctx.count(&format!("manifest_checked_bytes:{}k", p.check_info_pos / 1024));
+                    }
+                    npacks += 1;
+                }
+            }
+            ctx.sample(format!("{} container listing {} packs: pristine verdicts of {} packs", mode.name(), extra + 3, npacks));
+            ctx.case_done(fnv(format!("{:?}", spec).as_bytes()), true);
+        }
     }
 }
